@@ -50,19 +50,19 @@ PROP = {
                 H("c15_isd_from_str_n6", "B", bound="strings <= 6 bytes", what="Isd::from_str total + language", timeout=900),
                 H("c15_asn_from_str_n5", "B", bound="strings <= 5 bytes", what="Asn::from_str total + language", timeout=2400),
                 H("c15_isd_asn_from_str_n5", "B", bound="strings <= 5 bytes", what="IsdAsn::from_str total + language", timeout=2400),
-                H("c15_asn_from_str_n6", "B", tier="thorough", bound="strings <= 6 bytes", what="Asn::from_str total + language", timeout=3600),
-                H("c15_isd_asn_from_str_n6", "B", tier="thorough", bound="strings <= 6 bytes", what="IsdAsn::from_str total + language", timeout=3600),
+                H("c15_asn_from_str_n6", "B", tier="experimental", bound="strings <= 6 bytes", what="Asn::from_str total + language", timeout=3600),
+                H("c15_isd_asn_from_str_n6", "B", tier="experimental", bound="strings <= 6 bytes", what="IsdAsn::from_str total + language", timeout=3600),
                 H("c15_svc_from_str_n6", "B", bound="strings <= 6 bytes", what="ServiceAddr::from_str total + language", timeout=2400),
                 H("c15_rt_isd", "P", what="Isd display/parse round trip, all 2^16 values", timeout=900),
-                H("c15_rt_svc", "P", tier="thorough", what="ServiceAddr display/parse round trip, all 2^16 values", timeout=3600),
-                H("c15_rt_asn_decimal", "P", tier="thorough", what="Asn round trip, decimal range (<= 2^32-1)", timeout=1800),
-                H("c15_rt_asn_hex", "P", tier="thorough", what="Asn round trip, colon-hex range", timeout=1800),
-                H("c15_rt_isd_asn", "P", tier="thorough", what="IsdAsn round trip, all 2^64 values", timeout=3600),
-                H("c15_sock_split_n10", "B", tier="thorough", bound="strings <= 10 bytes", what="splitter total + exact", timeout=3600),
-                H("c15_isd_from_str_n10", "B", tier="thorough", bound="strings <= 10 bytes", what="Isd::from_str", timeout=3600),
-                H("c15_asn_from_str_n10", "B", tier="thorough", bound="strings <= 10 bytes", what="Asn::from_str", timeout=3600),
-                H("c15_isd_asn_from_str_n10", "B", tier="thorough", bound="strings <= 10 bytes", what="IsdAsn::from_str", timeout=3600),
-                H("c15_svc_from_str_n14", "B", tier="thorough", bound="strings <= 14 bytes", what="ServiceAddr::from_str incl. Wildcard_M and <SVC:0xhhhh>_M", timeout=3600),
+                H("c15_rt_svc", "P", tier="experimental", what="ServiceAddr display/parse round trip, all 2^16 values", timeout=3600),
+                H("c15_rt_asn_decimal", "P", tier="experimental", what="Asn round trip, decimal range (<= 2^32-1)", timeout=1800),
+                H("c15_rt_asn_hex", "P", tier="experimental", what="Asn round trip, colon-hex range", timeout=1800),
+                H("c15_rt_isd_asn", "P", tier="experimental", what="IsdAsn round trip, all 2^64 values", timeout=3600),
+                H("c15_sock_split_n10", "B", tier="experimental", bound="strings <= 10 bytes", what="splitter total + exact", timeout=3600),
+                H("c15_isd_from_str_n10", "B", tier="experimental", bound="strings <= 10 bytes", what="Isd::from_str", timeout=3600),
+                H("c15_asn_from_str_n10", "B", tier="experimental", bound="strings <= 10 bytes", what="Asn::from_str", timeout=3600),
+                H("c15_isd_asn_from_str_n10", "B", tier="experimental", bound="strings <= 10 bytes", what="IsdAsn::from_str", timeout=3600),
+                H("c15_svc_from_str_n14", "B", tier="experimental", bound="strings <= 14 bytes", what="ServiceAddr::from_str incl. Wildcard_M and <SVC:0xhhhh>_M", timeout=3600),
             ],
         },
         {
